@@ -103,6 +103,25 @@ CHECKS["C11"] = dict(
     design="4 (C11)",
 )
 
+CHECKS["C06"] = dict(
+    technique="Coq proof (list lemmas on firstn/skipn and set_nth; association-list lemmas for keyed genotypes, generic in the key type; membership for tree donors) over a hand-written Gallina model of create/mutate/crossover of all five representations + differential correspondence: every observed operation is re-run in the model on the observed inputs and the answers it drew from the shared source + the recombination / locality contract evaluated on every observed operation",
+    text="6 theorems (Props/C06.v, closed under the global context): GE and stack crossover, for ANY cut point and parents of equal length: both children have that length, every gene comes from a parent at the SAME locus and the children are complementary; GE / stack mutation keeps the length and changes at most one gene; SGE / dSGE crossover (any key type): the children have parent 1's keys and under every key one child holds one parent's whole gene list and its sibling the other's; SGE / dSGE mutation keeps keys and lengths and changes at most one gene; tree crossover, when it finds donor material, returns a node of the start symbol's class that occurs in the other parent. Tied to /repo by ~550 operations per check on the real representation objects (gene lengths 1..400, five hierarchies + generated ones, create/map/mutate/crossover sequences).",
+    note="Trusted: Coq kernel + vm_compute; hand-written model Model/Linear.v; harness. Known finding F13: tree mutate() always regenerates from the root and tree crossover with an abstract start symbol returns fresh random trees (no parental material): the tree clause of the property holds only when donor material is found (concrete start symbol), which is what the theorem states. The stack representation's crossover cuts at randint(0,255) whatever the gene length (modelled as such).",
+    design="4 (C06)",
+)
+CHECKS["C07"] = dict(
+    technique="Coq proof (invariant 'the random source is a reader over the same gene list' for every primitive of the state-and-error monad, lifted through create_node by induction on fuel; a lemma characterising dSGE reads inside the existing genes) over the hand-written Gallina model of GE / SGE / dSGE mapping + differential correspondence of every mapping + pairs of mappings of one genotype, interleaved with unrelated draws, observed on the implementation",
+    text="4 theorems (Props/C07.v, closed under the global context): for every grammar, tree decider, genotype and fuel, GE and SGE mapping consult nothing but the genotype's own genes: in every final state (program, failure, backtracking) the random source is still a reader over exactly the same gene list, and the shared search stream is not an argument of the mapping at all; the same invariant for any call of create_node on any gene-backed source; dSGE: a decision inside the existing genes draws nothing from the shared source and leaves the genes untouched. Tied to /repo by ~600 operations per check and all pairs of mappings of one genotype (created, mutated, crossed over) with unrelated draws in between: identical programs, zero answers drawn from the shared source.",
+    note="Trusted: Coq kernel + vm_compute; model; harness. PARTIAL: for dynamic SGE the replay property (a second mapping of the extended genotype reproduces the first and draws nothing) is observed on pairs, not proved; the stack representation's mapping is not modelled (pairs observed). Known finding F15: dSGE draws refined fields from the shared stream on every mapping.",
+    design="4 (C07)",
+)
+CHECKS["C09"] = dict(
+    technique="Coq proof over a purely functional model (operators are functions from input values to output values; the theorems state the footprint on the persistent operator state) + deep structural snapshots of every existing genotype (program, genes, gengy_* metadata, synthesis contexts) before and after EVERY operation of generated operation sequences on the five representations, results being consumed by later operations",
+    text="3 theorems (Props/C09.v, closed under the global context): creation / mutation / crossover of trees never write the grammar's productions shared by all individuals; a mutated codon genotype is a new value agreeing with its parent on all loci but one; a tree crossover child found in the donor is the donor's own sub-node (shared, not rebuilt). The absence of in-place modification of Python objects is not a statement about the functional model: it is OBSERVED - ~570 operations per check, each followed by a comparison of every earlier genotype with its deep snapshot (the only accepted change: dSGE's extension of a genotype by its own mapping).",
+    note="PARTIAL: aliasing between Python objects (offspring sharing sub-structures with parents, later operations mutating them) is runtime behaviour the functional Gallina model cannot exhibit; it is exercised by snapshots over operation sequences in which offspring are mapped, mutated and crossed again. Steps and combinators (selection, elitism, novelty) are covered for population size and membership by C15-C17; their inputs are snapshot-checked by the thorough tier only.",
+    design="4 (C09)",
+)
+
 ALL = [f"C{n:02d}" for n in range(1, 21)]
 
 m = {
